@@ -387,6 +387,14 @@ class Builder:
         rets = [strip(x) for x in closure_ret(self.prog, cb)]
         apps = [(bb, tt) for bb, tt in cb.calls() if short(cname(tt)) == "Vec::<T, A>::append"]
         L_, R_ = ("param", 2 + off), ("param", 4 + off)
+        # mutable borrows of the two vectors: only the ones the append / extend itself takes (a `mem::swap(&mut l, &mut r)`
+        # or any other mutation before it changes which elements end up where)
+        nmut = {L_[1]: 0, R_[1]: 0}
+        for bi_, si_, st_ in cb.stmts():
+            if st_["k"] == "assign" and st_["rv"]["k"] == "ref" and st_["rv"].get("m") and not st_["rv"]["p"]["pr"] and st_["rv"]["p"]["l"] in nmut:
+                nmut[st_["rv"]["p"]["l"]] += 1
+        if nmut[L_[1]] > 1 or nmut[R_[1]] > 1 or any(bb_ for bb_ in cb.reachable() if cb.blocks[bb_]["t"]["k"] == "switch"):
+            return "other"
         if len(rets) == 1 and rets[0] == L_ and len(apps) == 1:
             a0 = unmut(can.terms.operand(apps[0][1]["args"][0]))
             a1 = unmut(can.terms.operand(apps[0][1]["args"][1]))
